@@ -326,10 +326,18 @@ var c15ClaimNames = []string{"nonce", "aud", "exp", "iat", "iss", "sub", "nbf", 
 var c15HeaderNames = []string{"kid", "alg", "typ", "cty", "crit", "jwk", "jku", "x5c", "x5u", "x5t", "x5t#S256", "zip", "enc", "b64"}
 
 func genOddToken(c *sim.Case) (*sim.Behaviour, string) {
-	mode := sim.Weighted(c, "tok.mode", 5, 2, 1)
+	mode := sim.Weighted(c, "tok.mode", 5, 2, 1, 2)
 	claims := map[string]any{}
 	hdrs := map[string]any{}
 	switch mode {
+	case 3: // well-typed optional claims that invite further checks, under an algorithm name from outside the usual table
+		for _, n := range []string{"at_hash", "c_hash", "s_hash", "azp", "acr", "amr", "auth_time", "sid", "nbf", "jti"} {
+			if sim.Bool(c, "tok.opt."+n) {
+				claims[n] = map[string]any{"at_hash": "77QmUPtjPfzWtF2AnpK9RQ", "c_hash": "LDktKdoQak3Pk0cnXxCltA", "s_hash": "x", "azp": "client-1", "acr": "0", "amr": []string{"pwd"},
+					"auth_time": 1, "sid": "sid-1", "nbf": 1, "jti": "j1"}[n]
+			}
+		}
+		hdrs["alg"] = sim.PickStr(c, "tok.alg", "EdDSA", "ES256K", "none", "HS256", "RS1", "PS384", "ES512", "dir", "A128KW", "", "rs256")
 	case 0: // one claim (and possibly one header) of unexpected type, everything else honest
 		claims[c15ClaimNames[sim.Pick(c, "tok.claim", len(c15ClaimNames))]] = jsonOdd(c, "tok.val")
 		if sim.Weighted(c, "tok.hdr?", 2, 1) == 1 {
